@@ -280,7 +280,10 @@ func (w *kqueue) AddWith(name string, opts ...addOpt) error {
 	if err != nil {
 		return err
 	}
-	w.watches.addUserWatch(name)
+	// Use the same cleaned path as the watch tables do: with the path as given
+	// ("./dir", "dir/") remove() does not find the mark again, and removing
+	// the parent directory takes this watch for one of its internal ones.
+	w.watches.addUserWatch(filepath.Clean(name))
 	return nil
 }
 
